@@ -153,7 +153,7 @@ func (y *sys) ops(s *dvsim.Sim) []explore.Op {
 		for b := 0; b < n; b++ {
 			// an exchange in which a already holds b's current advertisement maps the state to
 			// the same canonical state: not generated (it is a self-loop by construction)
-			if a != b && s.Sends(a, b) && !sn.Fresh(a, b) {
+			if a != b && s.Sends(a, b) && !sn.NothingToHear(a, b) {
 				ops = append(ops, explore.Op{Name: fmt.Sprintf("X(%d<%d)", a, b)})
 			}
 		}
@@ -175,7 +175,7 @@ func (y *sys) ops(s *dvsim.Sim) []explore.Op {
 		}
 		for a := 0; !y.noPark && a < n; a++ {
 			for b := 0; b < n; b++ {
-				if a != b && s.Sends(a, b) && !sn.Fresh(a, b) {
+				if a != b && s.Sends(a, b) && !sn.NothingToHear(a, b) {
 					ops = append(ops, explore.Op{Name: fmt.Sprintf("Pg(%d<%d)", a, b), Dev: true})
 				}
 			}
@@ -194,7 +194,7 @@ func (y *sys) ops(s *dvsim.Sim) []explore.Op {
 		}
 		for a := 0; y.flight && a < n; a++ {
 			for b := 0; b < n; b++ {
-				if a != b && s.Sends(a, b) && !sn.Fresh(a, b) {
+				if a != b && s.Sends(a, b) && !sn.NothingToHear(a, b) {
 					ops = append(ops, explore.Op{Name: fmt.Sprintf("Xq(%d<%d)", a, b), Dev: true})
 				}
 			}
@@ -242,7 +242,7 @@ func (y *sys) ops(s *dvsim.Sim) []explore.Op {
 		} else {
 			for a := 0; a < n; a++ {
 				for b := 0; b < n; b++ {
-					if a != b && s.Sends(a, b) && !sn.Fresh(a, b) {
+					if a != b && s.Sends(a, b) && !sn.NothingToHear(a, b) {
 						ops = append(ops, explore.Op{Name: fmt.Sprintf("Xh(%d<%d)", a, b), Dev: true})
 					}
 				}
